@@ -107,7 +107,14 @@ def run(ctx):
                 if v[1] not in ("P", "B") or v[0] not in ("N", "T", "B"):
                     res_ok = False
             ok = len(rem) == 1 and pf.at(rem[0].bb) == "P" and n_res > 0 and res_ok
-            chk.ob("C12.a", f"{ss.path} [entry removed when deleted; false only then]", ok, "the remembered entry is removed on the deleted path and only that path returns false" if ok else "a deleted metric leaves its remembered (generation, time) behind, or `false` is returned without a deletion: a re-registered metric with the same update count is dropped at once", ss.loc())
+            if ok:
+                # ... from the very map the entry was looked up in (the kind's own slot), once — not from other kinds' maps
+                from props.common import in_cycle as _in_cycle
+
+                look = [c for c in nonforeign_calls(ss) if c.fn is ss and c.is_("get_mut", "HashMap<K, V, S, A>::get", "HashMap<K, V, S, A>::get_mut")]
+                same = bool(look) and repr(strip_sym(sym_through(arg_syms(rem[0])[0], "Deref::deref", "DerefMut::deref_mut"))) == repr(strip_sym(sym_through(arg_syms(look[0])[0], "Deref::deref", "DerefMut::deref_mut")))
+                ok = same and not _in_cycle(b, rem[0].bb)
+            chk.ob("C12.a", f"{ss.path} [entry removed when deleted; false only then]", ok, "the remembered entry is removed on the deleted path and only that path returns false" if ok else "the remembered (generation, time) is not removed exactly once from the deleted metric's own per-kind slot (left behind, or other kinds' state purged too), or `false` is returned without a deletion: a re-registered metric with the same update count is dropped at once / an equal-key metric of another kind restarts its idle clock", ss.loc())
         # changed generation updates both fields; first sighting inserts (gen, now)
         ins = [c for c in nonforeign_calls(ss) if c.fn is ss and c.is_("HashMap<K, V, S, A>::insert", "insert")]
         ok = len(ins) == 1
